@@ -185,7 +185,14 @@ func xmlRefDOM(text string) (*xnode, error) {
 	d := xml.NewDecoder(strings.NewReader(text))
 	root := &xnode{Kind: "doc"}
 	stack := []*xnode{root}
+	// namespace scoping (https://www.w3.org/TR/xml-names/#scoping-defaulting): a declaration holds for the declaring
+	// element and its descendants; the prefix of a URI is that of its innermost declaration in scope
 	prefixOf := map[string]string{"http://www.w3.org/XML/1998/namespace": "xml"}
+	type saved struct {
+		uri, prefix string
+		bound       bool
+	}
+	var scopes [][]saved
 	for {
 		tok, err := d.Token()
 		if err == io.EOF {
@@ -197,13 +204,19 @@ func xmlRefDOM(text string) (*xnode, error) {
 		top := stack[len(stack)-1]
 		switch t := tok.(type) {
 		case xml.StartElement:
+			var sv []saved
 			for _, a := range t.Attr {
 				if a.Name.Local == "xmlns" && a.Name.Space == "" {
+					old, ok := prefixOf[a.Value]
+					sv = append(sv, saved{a.Value, old, ok})
 					prefixOf[a.Value] = ""
 				} else if a.Name.Space == "xmlns" {
+					old, ok := prefixOf[a.Value]
+					sv = append(sv, saved{a.Value, old, ok})
 					prefixOf[a.Value] = a.Name.Local
 				}
 			}
+			scopes = append(scopes, sv)
 			e := &xnode{Kind: "elem", Local: t.Name.Local, URI: t.Name.Space, Prefix: prefixOf[t.Name.Space]}
 			for _, a := range t.Attr {
 				an := &xnode{Kind: "attr", Local: a.Name.Local, URI: a.Name.Space, Prefix: prefixOf[a.Name.Space], Text: a.Value}
@@ -216,6 +229,15 @@ func xmlRefDOM(text string) (*xnode, error) {
 			stack = append(stack, e)
 		case xml.EndElement:
 			stack = stack[:len(stack)-1]
+			sv := scopes[len(scopes)-1]
+			scopes = scopes[:len(scopes)-1]
+			for i := len(sv) - 1; i >= 0; i-- {
+				if sv[i].bound {
+					prefixOf[sv[i].uri] = sv[i].prefix
+				} else {
+					delete(prefixOf, sv[i].uri)
+				}
+			}
 		case xml.CharData:
 			top.Kids = append(top.Kids, &xnode{Kind: "text", Text: string(t)})
 		}
@@ -258,12 +280,25 @@ func c08XML(args []string) int {
 		`<p:a xmlns:p="urn:p" xmlns="urn:d"><b p:k="1" k="2"/><p:c>&amp;&lt;&#x4e16;</p:c></p:a>`,
 		`<?xml version="1.0"?><!-- c --><a><![CDATA[<raw>&]]><?pi x?><b xml:lang="en"> sp </b></a>`,
 		`<a xmlns:x="urn:1"><x:b><c xmlns:y="urn:2"><y:d x:k="v"/></c></x:b></a>`,
+		// one URI under two prefixes in disjoint scopes; a nested re-declaration that goes out of scope again
+		`<feed><a:e xmlns:a="urn:i"><a:id a:k="x">1</a:id></a:e><b:e xmlns:b="urn:i"><b:id b:k="y">2</b:id></b:e></feed>`,
+		`<root xmlns:p="urn:p"><r:x xmlns:r="urn:p"><r:y/></r:x><p:c p:k="1"/></root>`,
+		`<root xmlns:p="urn:p"><p:x xmlns:p="urn:other"><p:y/></p:x><p:c/></root>`,
+		`<root xmlns="urn:d"><x xmlns="urn:e"><y/></x><c/></root>`,
 	}
 	names := []string{"a", "b", "p:c", "q:d", "e"}
 	var gen func(depth int) string
 	gen = func(depth int) string {
 		nm := names[r.Intn(len(names))]
 		attrs := ""
+		switch r.Intn(12) {
+		case 0: // the URI of p under a second prefix, for this subtree only
+			nm, attrs = "r:"+[]string{"c", "x"}[r.Intn(2)], ` xmlns:r="urn:p"`
+		case 1: // prefix q re-bound to another URI for this subtree
+			nm, attrs = "q:d", ` xmlns:q="urn:q2"`
+		case 2: // a default namespace for this subtree
+			attrs = ` xmlns="urn:dflt"`
+		}
 		if r.Intn(3) == 0 {
 			attrs += fmt.Sprintf(` k="%d"`, r.Intn(3))
 		}
